@@ -11,7 +11,7 @@
 EXTENDS Speaker, SpeakerDom, TraceUtil
 
 VARIABLES l, stalled, held, obs, hasObs
-tvars == <<up, inr, loc, l, stalled, held, obs, hasObs>>
+tvars == <<up, inr, loc, impPol, expPol, inrPol, expEff, l, stalled, held, obs, hasObs>>
 
 TraceInit == PInit /\ l = 1 /\ stalled = {} /\ held = {} /\ obs = [none |-> TRUE] /\ hasObs = FALSE
 
@@ -23,29 +23,36 @@ TReset == /\ IsEvent("Reset")
           /\ up' = [p \in Peers |-> FALSE]
           /\ inr' = [p \in Peers |-> [x \in Prefixes |-> NoRoute]]
           /\ loc' = [x \in Prefixes |-> NoRoute]
+          /\ impPol' = "acc" /\ expPol' = "acc"
+          /\ inrPol' = [p \in Peers |-> [x \in Prefixes |-> "acc"]]
+          /\ expEff' = [p \in Peers |-> "acc"]
           /\ stalled' = {} /\ held' = {} /\ obs' = [none |-> TRUE] /\ hasObs' = FALSE
 
 TUp      == IsEvent("Up") /\ PUp(Row.p) /\ TakeObs /\ UNCHANGED <<stalled, held>>
 TUpHold  == IsEvent("UpHold") /\ PUp(Row.p) /\ held' = held \cup {Row.p} /\ TakeObs /\ UNCHANGED stalled
-TRelease == IsEvent("Release") /\ held' = held \ {Row.p} /\ TakeObs /\ UNCHANGED <<up, inr, loc, stalled>>
+TRelease == IsEvent("Release") /\ held' = held \ {Row.p} /\ TakeObs /\ UNCHANGED <<up, inr, loc, polvars, stalled>>
 TDown    == IsEvent("Down") /\ PDown(Row.p) /\ stalled' = stalled \ {Row.p} /\ held' = held \ {Row.p} /\ TakeObs
 TAnn     == IsEvent("Ann") /\ PAnn(Row.p, Row.x, Row.r) /\ TakeObs /\ UNCHANGED <<stalled, held>>
 TWd      == IsEvent("Wd") /\ PWd(Row.p, Row.x) /\ TakeObs /\ UNCHANGED <<stalled, held>>
 TApiAdd  == IsEvent("ApiAdd") /\ PApiAdd(Row.x, Row.r) /\ TakeObs /\ UNCHANGED <<stalled, held>>
 TApiDel  == IsEvent("ApiDel") /\ PApiDel(Row.x) /\ TakeObs /\ UNCHANGED <<stalled, held>>
-TStall   == IsEvent("Stall") /\ stalled' = stalled \cup {Row.p} /\ TakeObs /\ UNCHANGED <<up, inr, loc, held>>
-TResume  == IsEvent("Resume") /\ stalled' = stalled \ {Row.p} /\ TakeObs /\ UNCHANGED <<up, inr, loc, held>>
-TTick    == IsEvent("Tick") /\ TakeObs /\ UNCHANGED <<up, inr, loc, stalled, held>>
-TSettle  == IsEvent("Settle") /\ stalled' = {} /\ held' = {} /\ TakeObs /\ UNCHANGED <<up, inr, loc>>
+TStall   == IsEvent("Stall") /\ stalled' = stalled \cup {Row.p} /\ TakeObs /\ UNCHANGED <<up, inr, loc, polvars, held>>
+TResume  == IsEvent("Resume") /\ stalled' = stalled \ {Row.p} /\ TakeObs /\ UNCHANGED <<up, inr, loc, polvars, held>>
+TTick    == IsEvent("Tick") /\ TakeObs /\ UNCHANGED <<up, inr, loc, polvars, stalled, held>>
+TSettle  == IsEvent("Settle") /\ stalled' = {} /\ held' = {} /\ TakeObs /\ UNCHANGED <<up, inr, loc, polvars>>
 
-TraceNext == TReset \/ TUp \/ TUpHold \/ TRelease \/ TDown \/ TAnn \/ TWd \/ TApiAdd \/ TApiDel
+TargetOf(n) == IF n = "all" THEN Peers ELSE {n}
+TSetImp  == IsEvent("SetImp") /\ PSetImp(Row.pol) /\ TakeObs /\ UNCHANGED <<stalled, held>>
+TSetExp  == IsEvent("SetExp") /\ PSetExp(Row.pol) /\ TakeObs /\ UNCHANGED <<stalled, held>>
+TResetIn == IsEvent("ResetIn") /\ PResetIn(TargetOf(Row.p)) /\ TakeObs /\ UNCHANGED <<stalled, held>>
+TResetOut == IsEvent("ResetOut") /\ PResetOut(TargetOf(Row.p)) /\ TakeObs /\ UNCHANGED <<stalled, held>>
+TResetBoth == IsEvent("ResetBoth") /\ PResetBoth(TargetOf(Row.p)) /\ TakeObs /\ UNCHANGED <<stalled, held>>
+TRefresh == IsEvent("Refresh") /\ PResetOut({Row.p}) /\ TakeObs /\ UNCHANGED <<stalled, held>>
+
+TraceNext == TSetImp \/ TSetExp \/ TResetIn \/ TResetOut \/ TResetBoth \/ TRefresh \/ TReset \/ TUp \/ TUpHold \/ TRelease \/ TDown \/ TAnn \/ TWd \/ TApiAdd \/ TApiDel
              \/ TStall \/ TResume \/ TTick \/ TSettle
 TraceSpec == TraceInit /\ [][TraceNext]_tvars
 
-TraceConstraint == Hwm(l) /\ NoteIf(hasObs /\ \E x \in Prefixes : Cardinality(LocRibExpected(x)) >= 2
-                                     /\ \E p \in Peers : up[p],
-                                    <<up, inr, loc, stalled, held>>)
-TraceAccepted == Accepted
 
 ---------------------------------------------------------------------------
 Current(p) == up[p] /\ p \notin stalled /\ p \notin held
@@ -55,7 +62,14 @@ Gap_Sessions == hasObs => \A p \in Peers \ held : (obs.sess[p] = "up") = up[p]
 
 (* C01: every established, reading neighbour holds exactly the current export *)
 C01_ExportExact ==
-  hasObs => \A p \in Peers : Current(p) => \A x \in Prefixes : obs.views[p][x] = ExportOf(p, x)
+  hasObs => \A p \in Peers : (Current(p) /\ CleanIn /\ CleanOut(p)) =>
+               \A x \in Prefixes : obs.views[p][x] = ExportOf(p, x)
+
+(* C15: once the soft reset matching a policy change has been done, the Loc-RIB and what every
+   neighbour holds equal a fresh evaluation under the CURRENT policy (ExportOf / LocRibExpected
+   are defined from the current policy and the route history only).  A repeated reset is one
+   more step at which the same equality is required: it changes nothing. *)
+C15_ExportAsIfFresh == C01_ExportExact
 
 (* C02: Adj-RIB-In = last un-withdrawn route per prefix of the CURRENT session, nothing from an
    ended one; rejected flag for routes failing the loop check *)
@@ -66,13 +80,21 @@ C02_AdjInExact ==
 (* C02: Loc-RIB = usable routes + local routes, one per source, best first *)
 RibRec(s) == [i \in 1..Len(s) |-> [src |-> s[i].src, v |-> s[i].v, best |-> (i = 1)]]
 C02_LocRibExact ==
-  hasObs => \A x \in Prefixes : obs.rib[x] = RibRec(Ordered(LocRibExpected(x)))
+  (hasObs /\ CleanIn) => \A x \in Prefixes : obs.rib[x] = RibRec(Ordered(LocRibExpected(x)))
+C15_LocRibAsIfFresh == C02_LocRibExact
+(* counts the C15-relevant states: a policy other than "acc" is configured and in force *)
+C15_Nontrivial == hasObs /\ CleanIn /\ (impPol # "acc" \/ expPol # "acc") /\ \E p \in Peers : Current(p) /\ CleanOut(p)
 
 (* C02: received / accepted counters agree with that content *)
 C02_Counters ==
   hasObs => \A p \in Peers :
      /\ obs.ctr[p].received = Cardinality({x \in Prefixes : inr[p][x] # NoRoute})
      /\ obs.ctr[p].accepted = Cardinality({x \in Prefixes : Usable(inr[p][x])})
+
+TraceConstraint == Hwm(l) /\ NoteIf(C15_Nontrivial, <<"c15", up, inr, loc, polvars>>) /\ NoteIf(hasObs /\ \E x \in Prefixes : Cardinality(LocRibExpected(x)) >= 2
+                                     /\ \E p \in Peers : up[p],
+                                    <<up, inr, loc, polvars, stalled, held>>)
+TraceAccepted == Accepted
 
 (* debugging aid (tools/explain.py): what is shown in a counterexample state *)
 Explain == [l |-> l, ev |-> IF l > 1 THEN Trace[l - 1].ev ELSE "init", up |-> up, stalled |-> stalled, held |-> held,
